@@ -10,6 +10,7 @@ theorem display_eq (fmt : F → String) (s : RelativeStrengthIndex F) :
     display fmt s = "RSI(" ++ toString s.period ++ ")" := rfl
 theorem default_eq : (default_ : Option (RelativeStrengthIndex F)) = some (fresh 14) := by
   unfold default_
+  try simp only [gen_helper]
   rw [new_eq]
   simp [unwrap]
 
